@@ -166,7 +166,7 @@ def run(chk):
             chk.violation('lu-perm', 'row_index returned by _vnacommon_lu is not a permutation: %r' % pi, [lines[k]])
         elif not rel <= 1e-12:
             chk.violation('lu-factors', '_vnacommon_lu: L U differs from the row-permuted input by %.3e (relative, n=%d)' % (rel, n), [lines[k]])
-        elif abs(d - dref) > 1e-9 * max(abs(dref), 1e-300) and abs(dref) > 1e-200:
+        elif not abs(d - dref) <= 1e-9 * max(abs(dref), 1e-300) and abs(dref) > 1e-200:
             chk.violation('lu-det', '_vnacommon_lu determinant %r differs from %r' % (d, dref), [lines[k]])
         else:
             chk.count('lu_factors_ok')
